@@ -279,10 +279,8 @@ impl Prop for C10 {
     let limit = if ties { 1 + rng.below(4) } else { 1 + rng.below(30) };
     let plan = resolve_plan(&sort);
     let fast = plan.len() == 1 && plan[0].0 == "_score" && plan[0].1;
-    // the default score sort prunes.  Queries with a score hook are run exhaustively on that path
-    // (pruning under a hook is C09's open finding); hook-free queries use any strategy
-    let hook_free = matches!(kind, "plain" | "single_term" | "match_all");
-    let execution = if fast && !hook_free { "bm25" } else if fast && ties { *rng.pick(&["bm25", "bm25", "wand", "bmw"]) } else { *rng.pick(&["bm25", "wand", "bmw"]) };
+    // every strategy on every path (the default score sort is the pruning path)
+    let execution = if fast && ties { *rng.pick(&["bm25", "bm25", "wand", "bmw"]) } else { *rng.pick(&["bm25", "wand", "bmw"]) };
     json!({"class": if ties { "ties" } else { "random" }, "kind": kind, "segments": segments, "deletes": deletes, "query": query, "sort": sort, "limit": limit, "execution": execution})
   }
 
@@ -390,13 +388,7 @@ impl Prop for C10 {
       s.count(&format!("fast_path.{execution}"));
     }
     if want != got {
-      let obs = json!({"page": got, "all_prefix": want, "execution": execution});
-      let explained = fast && execution == "bmw" && !hook && tk["ok"] == json!(true) && same_ranking(&model_ranking(&tk["bmw"]), &page, limit, 2e-5);
-      if explained {
-        s.fail("bmw.block-bound", "execution=bmw on the default score sort returns a page that is not the limit-prefix of all matches, exactly as the recorded block-bound defect of C09 predicts (TermState::block_upper_bound = maximum of the block the cursor is in)", case, obs);
-      } else {
-        s.fail("sort.prefix", "the hits of the request are not the limit-prefix of all matches in the same order", case, obs);
-      }
+      s.fail("sort.prefix", "the hits of the request are not the limit-prefix of all matches in the same order", case, json!({"page": got, "all_prefix": want, "execution": execution}));
     }
     // ---- finder (b): all matches are ordered by the statement's comparator
     for i in 1..rows.len() {
@@ -521,13 +513,12 @@ impl Prop for C10 {
       s.count("term_scored_by_two_clauses");
     }
     // fast path: the page of the request against the mechanism model of the chosen strategy
-    if fast && !hook {
+    if fast {
       if tk["ok"] != json!(true) {
         s.disagree("model.error", case, json!(null), tk.clone());
       } else if tk["negative"] != json!(true) {
         let mr = model_ranking(&tk[execution]);
-        let knife = (execution == "wand" && tk["knife_wand"] == json!(true)) || (execution == "bmw" && tk["knife_bmw"] == json!(true));
-        if !same_ranking(&mr, &page, limit, 2e-5) && !knife {
+        if !same_ranking(&mr, &page, limit, 2e-5) {
           s.disagree(&format!("fastpath.page.{execution}"), case, json!(page.iter().map(|h| json!([h.0, h.1])).collect::<Vec<_>>()), json!(mr.iter().map(|h| json!([h.0, h.1])).collect::<Vec<_>>()));
         }
       }
